@@ -374,6 +374,31 @@ def np_arange(eng, args, kw):
     raise EngineError('np.arange form not modelled here')
 
 
+def np_linspace(eng, args, kw):
+    """np.linspace(start, stop, num): num points, element j = start + j * (stop - start) / (num - 1) (the single point `start`
+    for num = 1, nothing for num = 0, ValueError for a negative count) -- read over the reals"""
+    if len(args) < 3 and 'num' not in kw:
+        raise EngineError('np.linspace without an explicit count')
+    a, b = args[0], args[1]
+    num = args[2] if len(args) > 2 else kw['num']
+    if not is_intlike(num):
+        raise EngineError('np.linspace with a non-integer count')
+    if eng.decide(r_cmp('<', num, 0)):
+        raise PyRaise('ValueError', ('Number of samples must be non-negative',))
+    AXIOMS_USED.add('np.linspace(a, b, n): n points a + j (b - a) / (n - 1), read over the reals')
+    if isinstance(num, int):
+        if num == 0:
+            return NDArr([])
+        if num == 1:
+            return NDArr([a])
+        return NDArr([r_add(a, r_div(r_mul(j, r_sub(b, a)), num - 1)) for j in range(num)])
+    one = eng.decide(r_cmp('==', num, 1))
+    if one:
+        return SArr(lambda idx: a, 1, 'real', 'linspace', num)
+    den = r_sub(num, 1)
+    return SArr(lambda idx: r_add(a, r_div(r_mul(idx[0], r_sub(b, a)), den)), 1, 'real', 'linspace', num)
+
+
 def _reshape(vals, sh):
     it = iter(vals)
 
@@ -630,7 +655,7 @@ NP = Namespace('np', {
     'sum': Builtin('np.sum', np_sum), 'argmax': Builtin('np.argmax', np_argmax),
     'arange': Builtin('np.arange', np_arange), 'dot': Builtin('np.dot', np_dot),
     'logical_not': Builtin('np.logical_not', np_logical_not),
-    'hypot': Builtin('np.hypot', np_hypot), 'where': Builtin('np.where', np_where),
+    'hypot': Builtin('np.hypot', np_hypot), 'where': Builtin('np.where', np_where), 'linspace': Builtin('np.linspace', np_linspace),
     'maximum': Builtin('np.maximum', np_maximum), 'minimum': Builtin('np.minimum', np_minimum),
     'cumsum': Builtin('np.cumsum', np_cumsum),
     'flip': Builtin('np.flip', np_flip),
@@ -1653,6 +1678,32 @@ def setitem(eng, base, idx, v):
         return
     if isinstance(base, NDArr):
         import numpy as _np
+        if isinstance(idx, tuple) and any(isinstance(i, NDArr) for i in idx):
+            # an index tuple with concrete integer arrays / boolean masks: numpy's own advanced-index store (a repeated index is
+            # written once -- the last value wins -- exactly as numpy does)
+            conv = []
+            for i in idx:
+                if isinstance(i, NDArr):
+                    fl = flat(i.data)
+                    if all(isinstance(x, bool) for x in fl):
+                        conv.append(_np.array(i.data, dtype=bool))
+                    elif all(isinstance(x, int) for x in fl):
+                        conv.append(_np.array(i.data, dtype=int))
+                    else:
+                        raise EngineError('symbolic array inside an index tuple (store)')
+                elif i is None or i is Ellipsis or isinstance(i, (int, slice)):
+                    conv.append(i)
+                else:
+                    raise EngineError('symbolic index inside an advanced index tuple (store)')
+            o = nd_to_obj(eng, base)
+            vo = nd_to_obj(eng, v)
+            try:
+                o[tuple(conv)] = _np.broadcast_to(vo, o[tuple(conv)].shape)
+            except (ValueError, IndexError) as ex:
+                raise PyRaise(ex.__class__.__name__, (str(ex)[:60],))
+            base.data = nd_from_obj(o).data
+            eng.note_write(('nd', base))
+            return
         if isinstance(idx, NDArr) and all(isinstance(v, int) and not isinstance(v, bool) for v in flat(idx.data)):
             # concrete integer index array: numpy's fancy store
             o = nd_to_obj(eng, base)
